@@ -512,7 +512,7 @@ def Deribit.exInstr : Instr :=
 
 def Deribit.exState : DState :=
   { cash := 100, positions := [], book := [Deribit.exInstr], wallet := [("ETH", 5)], allowNeg := false, actions := [],
-    cache := none, flagOpen := true, now := 360, price := 165194 / 100 }
+    cache := none, flagOpen := true, now := 360, price := 165194 / 100, priceDec := false }
 
 def Deribit.exReq (a : Rat) (p : Option Rat) : Req :=
   { name := "ETH-22SEP23-1650-C", amount := a, priceTok := p, priceUsd := none, mult := none }
